@@ -71,7 +71,33 @@ func ruleSummaryRendering(c *Ctx, rule string) {
 	if add != nil {
 		goodB, whyB = true, ""
 		if !unconditionalInLoop(add) {
-			goodB, whyB = false, "a key is skipped (the accumulation is conditional)"
+			// a key may be skipped only when it is the internal 405 key, which has no bit in the table
+			skipped := true
+			var keyV ssa.Value
+			for _, opnd := range []ssa.Value{add.X, add.Y} {
+				if lk, isLk := opnd.(*ssa.Lookup); isLk {
+					keyV = lk.Index
+				}
+			}
+			if ex, isEx := keyV.(*ssa.Extract); isEx {
+				if nx, isNx := ex.Tuple.(*ssa.Next); isNx {
+					hdr := nx.Block()
+					path := (&an.Query{
+						Target: func(t ssa.Instruction) bool { return t.Block() == hdr && t == hdr.Instrs[0] },
+						Block:  func(t ssa.Instruction) bool { return t == ssa.Instruction(add) },
+						BlockEdge: func(bb *ssa.BasicBlock, succ int) bool {
+							return edgeHas(bb, succ, func(cond ssa.Value, truth bool) bool {
+								x, k, eq, ok := an.CondAtom(cond)
+								return ok && x == keyV && an.ConstKey(k) == a.NotAllowedKey && eq == truth
+							})
+						},
+					}).Search(an.After(ex))
+					skipped = path != nil
+				}
+			}
+			if skipped {
+				goodB, whyB = false, "a key is skipped (the accumulation is conditional)"
+			}
 		}
 		// the accumulator: either the field itself (then a store of 0 must dominate the loop) or a loop phi whose
 		// entry value does not read the old summary
